@@ -434,3 +434,25 @@ def c01_r8(ctx: Ctx, rule):
     if not (member or isnone) and not bad:
         raise AnalysisError("encode_json_container: cannot find the repeated-identifier test")
     return res
+
+
+RULES.setdefault("C10", []).append(Rule("C10.R6", "XML bundle writer declares the bundle's own bindings (shared with C02.R5)", 4, c02_r5, "F-SIB",
+                                        "an independent reader resolves names inside <prov:bundleContent> to the URIs the document holds"))
+RULES.setdefault("C11", []).append(Rule("C11.R6", "XML bundle writer declares the bundle's own bindings (shared with C02.R5)", 4, c02_r5, "F-SIB",
+                                        "JSON -> document -> XML -> document keeps the URIs of names in bundles that rebind a prefix"))
+
+
+@rule("C05", "C05.R7", "the literal converter applies the datatype's parser to every lexical form: absence is tested with `is None`, never by truthiness", 2,
+      decides="Literal('', xsd:string) is stored as '' exactly like a direct assignment")
+def c05_r7(ctx: Ctx, rule):
+    res = RuleResult()
+    for q, names in ((M + ".parse_xsd_types", None), (M + ".ProvRecord._auto_literal_conversion", {"value"})):
+        fi = ctx.fn(q)
+        watch = set(names) if names else {fi.params[0]}
+        bad = truthiness_tests(fi, watch)
+        res.ob("%s: truthiness tests on the lexical value %s: %s" % (short(q) if q.count(".") > 2 else q, sorted(watch), [norm(t)[:40] for e, t in bad] or "none"))
+        for e, t in bad:
+            res.fail(rule.id, "lexical-truthiness::%s::%s" % (q, norm(t)[:40]), ctx.loc(q, t),
+                     "%s decides on `%s` whether to convert: an empty (or falsy) lexical form is left as a Literal object" % (q.rsplit(".", 1)[1], norm(t)[:50]),
+                     "Literal('', xsd:string) stays a Literal while a direct '' is a str: two spellings of one value on one record")
+    return res
